@@ -73,7 +73,7 @@ def gen_cases(ctx, rng):
     cases = []
     shapes = [(n, m) for n in range(1, 8) for m in range(1, 8)]
     if ctx.quick:
-        for _ in range(1400):
+        for _ in range(2400):
             n, m = shapes[rng.integers(len(shapes))]
             ax = AXES[rng.integers(len(AXES))]
             mask = MASKS[rng.integers(16)] if rng.random() < 0.7 else (True,) * 4
@@ -352,7 +352,7 @@ def run(ctx):
                    correspondence_disagreements=len(bad), input_distribution=dist)
     # 3. search on the implementation
     broken = (not pr['ok']) or bad or errors
-    budget = (40 if ctx.quick else 200) * (4 if broken else 1)
+    budget = (70 if ctx.quick else 400) * (4 if broken else 1)
     hits, n_eval, n_distinct = search(ctx, rng, budget)
     ctx.cov.update(evaluations=n_eval + len(cases), distinct_nontrivial=n_distinct,
                    rule='search: random real images over shapes 2..9 x 2..9 (+4 larger), 5 symmetry_axis values of the '
